@@ -532,6 +532,8 @@ class Supercell(object):
 
         If mapping is not a proper permutation, raises ValueError.
         """
+        if len(mapping) != len(self.chemorder):
+            raise ValueError('Mapping {} does not have one map per chemistry'.format(mapping))
         neworder = [[clist[cmap[i]] for i in range(len(clist))]
                     for clist, cmap in zip(self.chemorder, mapping)]
         self.chemorder, oldorder = neworder, self.chemorder
